@@ -73,14 +73,14 @@ type Finding struct {
 }
 
 type Config struct {
-	Unwind        int // per (frame, block) visit limit
-	MaxDepth      int // call depth limit
-	StepBudget    int64
-	SolverKind    string
-	SolverTimeout time.Duration
+	Unwind         int // per (frame, block) visit limit
+	MaxDepth       int // call depth limit
+	StepBudget     int64
+	SolverKind     string
+	SolverTimeout  time.Duration
 	NondetMapOrder bool
-	Params        map[string]int
-	CrossSolver   string // when set, unsat assertion verdicts are re-checked by this solver
+	Params         map[string]int
+	CrossSolver    string // when set, unsat assertion verdicts are re-checked by this solver
 }
 
 // Engine is one worker: it owns a term context, a solver process and an interpreter heap.
@@ -99,44 +99,45 @@ type Engine struct {
 	chanUndo []chanUndo
 
 	// per-path state
-	pc          []*smt.Term
-	asserted    int
-	decisions   []int
-	pos         int
-	newWork     [][]int
-	names       map[string]int
-	inputs      []Input
-	observes    []Observation
-	marks       map[string]bool
-	findings    []Finding
-	depth       int
-	steps       int64
-	stack       []*frame
-	unwind      int
-	maxDepth    int
-	mustTerm    bool
-	mapOrder    bool
-	classTag    string
-	stdout      []Value
-	stderrN     int
-	exitCode    int
-	exited      bool
-	flags       map[string]Value
-	files       map[string]Value
-	stdin       Value
-	hostState   map[string]interface{}
-	assumptions map[string]bool
-	pathQueries int
-	initHost    map[string]interface{}
-	bind        map[*smt.Term]*smt.Term
-	substMemo   map[*smt.Term]*smt.Term
-	usedParams  map[string]int
-	oblig       map[string][2]int64
-	summarise   map[string]bool
-	summaries   map[string][]outcome
-	auxSolvers  []*smt.Solver
-	xsolver     *smt.Solver
-	mergedDepth int
+	pc              []*smt.Term
+	asserted        int
+	decisions       []int
+	pos             int
+	newWork         [][]int
+	names           map[string]int
+	inputs          []Input
+	observes        []Observation
+	marks           map[string]bool
+	findings        []Finding
+	depth           int
+	steps           int64
+	stack           []*frame
+	unwind          int
+	maxDepth        int
+	mustTerm        bool
+	mapOrder        bool
+	classTag        string
+	stdout          []Value
+	stderrN         int
+	exitCode        int
+	exited          bool
+	flags           map[string]Value
+	files           map[string]Value
+	stdin           Value
+	hostState       map[string]interface{}
+	assumptions     map[string]bool
+	pathQueries     int
+	retries         int
+	initHost        map[string]interface{}
+	bind            map[*smt.Term]*smt.Term
+	substMemo       map[*smt.Term]*smt.Term
+	usedParams      map[string]int
+	oblig           map[string][2]int64
+	summarise       map[string]bool
+	summaries       map[string][]outcome
+	auxSolvers      []*smt.Solver
+	xsolver         *smt.Solver
+	mergedDepth     int
 	lastObligations map[string][2]int64
 
 	// statistics (cumulative)
@@ -297,9 +298,31 @@ func (e *Engine) check(extra *smt.Term) smt.Result {
 	e.syncSolver()
 	e.pathQueries++
 	r := e.solver.Check(extra)
+	if r == smt.Unknown {
+		r = e.retryLonger(extra)
+	}
 	if r == smt.Sat {
 		e.solver.EndCheck()
 	}
+	return r
+}
+
+// retryLonger gives a query the solver could not decide in time one more chance with six times
+// the time limit (the process was restarted by the unknown, so the path condition is re-sent).
+// The verdict is still the solver's; only a second unknown makes the check inconclusive.
+func (e *Engine) retryLonger(extra *smt.Term) smt.Result {
+	old := e.solver.Timeout
+	e.solver.Retime(6 * old)
+	e.syncSolver()
+	e.retries++
+	r := e.solver.Check(extra)
+	if r == smt.Unknown {
+		e.solver.Timeout = old // Check has already restarted the process with the long limit
+		e.solver.Retime(old)
+		return r
+	}
+	// keep the scope state of a Sat answer intact: the limit is restored at the next restart
+	e.solver.Timeout = old
 	return r
 }
 
@@ -470,6 +493,9 @@ func (e *Engine) modelFor(extra *smt.Term) (map[string]string, smt.Result) {
 	e.syncSolver()
 	e.pathQueries++
 	r := e.solver.Check(extra)
+	if r == smt.Unknown {
+		r = e.retryLonger(extra)
+	}
 	if r != smt.Sat {
 		return nil, r
 	}
